@@ -283,6 +283,11 @@ pub fn gen_case(rng: &mut Rng, max_d: usize, npoly: usize, want_bounds: bool, wa
         if coin(rng) {
             b.push(range(rng, 1, supported));
         }
+        // bound sets with gaps: a small and a large extra bound far apart
+        if supported >= 4 && coin(rng) {
+            b.push(range(rng, 1, supported / 3));
+            b.push(range(rng, supported - supported / 3, supported));
+        }
         for i in (1..b.len()).rev() {
             let j = range(rng, 0, i);
             b.swap(i, j);
